@@ -96,6 +96,8 @@ def main(tier, seed, replay=None):
         builders.append(("shape", f))
     for i in range(60 if tier == "quick" else 2400):
         builders.append(("random", lambda i=i: c01.gen_circuit(rs, i, tier, kinds=[("bern",), ("bern", "cat")][i % 2], clt=0.15)))
+    for i in range(10 if tier == "quick" else 120):
+        builders.append(("random", lambda: G.rand_nested_mixture(rs)))
     cases = []; dist = dict(shape=0, random=0, nodes_before=0, nodes_after=0, shrunk=0)
     for tag, f in builders:
         root = f(); assign_ids(root)
